@@ -790,6 +790,20 @@ func (e *Env) call(x *ECall) SVal {
 			sorts = append(sorts, "Int")
 		}
 		fname := fmt.Sprintf("%s_%d", x.Fn, len(args))
+		switch x.Fn {
+		case "uf_isnum", "uf_numval", "uf_utext", "uf_stext":
+			e.g.numeralTheory()
+		case "uf_hasprefix":
+			// for a literal prefix the uninterpreted function has its meaning: length and bytes
+			if lit, ok := args[1].(*EStr); ok && len(args) == 2 && !e.g.declared["hasprefix-def:"+ts[0].S+":"+lit.S] {
+				e.g.declared["hasprefix-def:"+ts[0].S+":"+lit.S] = true
+				if !e.g.declared[fname] {
+					e.g.declared[fname] = true
+					e.g.decls = append(e.g.decls, fmt.Sprintf("(declare-fun %s (%s) Int)", fname, strings.Join(sorts, " ")))
+				}
+				e.g.assume(Eq(Eq(app(SInt, fname, ts...), IntLit(1)), e.g.strHasPrefixConst(ts[0], lit.S)))
+			}
+		}
 		if !e.g.declared[fname] {
 			e.g.declared[fname] = true
 			e.g.decls = append(e.g.decls, fmt.Sprintf("(declare-fun %s (%s) Int)", fname, strings.Join(sorts, " ")))
